@@ -237,7 +237,7 @@ package stats
 //@ assume func sort.Sort
 //@   trusted standard library: performs a sequence of data.Swap calls that leaves data ordered by data.Less
 //@   ensures sortedF(ptrcast(data, sampleSorter).xs)
-//@   ensures ptrcast(data, sampleSorter).xs == old(ptrcast(data, sampleSorter).xs) || true
+//@   ensures old(nonneg(ptrcast(data, sampleSorter).weights)) ==> nonneg(ptrcast(data, sampleSorter).weights)
 //@   assigns ptrcast(data, sampleSorter).xs[*], ptrcast(data, sampleSorter).weights[*]
 
 // Restatement of Sample.Bounds (proved in model xreal) for callers that
@@ -327,6 +327,7 @@ package stats
 //@   ensures [sorted] sortedF(s.Xs)
 //@   ensures [shape]  result == s && len(s.Xs) == old(len(s.Xs)) && len(s.Weights) == old(len(s.Weights)) && region(s.Xs) == old(region(s.Xs)) && region(s.Weights) == old(region(s.Weights)) && offset(s.Xs) == old(offset(s.Xs)) && offset(s.Weights) == old(offset(s.Weights))
 //@   ensures [already] old(s.Sorted) ==> same(s.Xs, old(s.Xs)) && same(s.Weights, old(s.Weights))
+//@   ensures [nonneg] old(nonneg(s.Weights)) ==> nonneg(s.Weights)
 //@   assigns s.Sorted, s.Xs[*], s.Weights[*]
 
 //@ func Sample.Copy
@@ -335,4 +336,42 @@ package stats
 //@   ensures [xs]      same(result.Xs, s.Xs)
 //@   ensures [weights] (isnil(s.Weights) ==> isnil(result.Weights)) && (!isnil(s.Weights) ==> !isnil(result.Weights) && same(result.Weights, s.Weights))
 //@   ensures [flag]    result.Sorted == s.Sorted
+//@   assigns nothing
+
+// ---------------------------------------------------------------------
+// Quantile (C10): Hyndman-Fan type 8. Model real.
+
+//@ spec r8h(n int, q float64) float64 = 1.0/3.0 + q*(n + 1.0/3.0)
+//@ spec r8(a []float64, q float64) float64 =
+//@     ifloor(r8h(len(a), q)) <= 0 ? a[0] :
+//@     ifloor(r8h(len(a), q)) >= len(a) ? a[len(a)-1] :
+//@     a[ifloor(r8h(len(a), q))-1] + (r8h(len(a), q) - ifloor(r8h(len(a), q))) * (a[ifloor(r8h(len(a), q))] - a[ifloor(r8h(len(a), q))-1])
+
+//@ lemma fsum_nonneg(a []float64, k int) induction k
+//@   model real
+//@   requires 0 <= k && k <= len(a) && (forall j in 0..len(a) :: a[j] >= 0)
+//@   ensures fsum(a, k) >= 0
+//@   trigger fsum(a, k)
+
+//@ func Sample.Quantile
+//@   use fsum_nonneg
+//@   model real
+//@   requires wfSample(s) && (!isnil(s.Weights) ==> nonneg(s.Weights))
+//@   ensures [empty] len(s.Xs) == 0 ==> isnan(result)
+//@   ensures [low]   len(s.Xs) > 0 && q <= 0 && isnil(s.Weights) ==> (forall k in 0..len(s.Xs) :: result <= s.Xs[k]) && (exists k in 0..len(s.Xs) :: result == s.Xs[k])
+//@   ensures [high]  len(s.Xs) > 0 && q >= 1 && isnil(s.Weights) ==> (forall k in 0..len(s.Xs) :: s.Xs[k] <= result) && (exists k in 0..len(s.Xs) :: result == s.Xs[k])
+//@   ensures [r8-sorted] len(s.Xs) > 0 && 0 < q && q < 1 && s.Sorted && isnil(s.Weights) ==> result == r8(s.Xs, q)
+//@   witness wi = i @ret7
+//@   ensures [weighted-sorted] len(s.Xs) > 0 && 0 < q && q < 1 && s.Sorted && !isnil(s.Weights) && fsum(s.Weights, len(s.Xs)) > 0 ==> 0 <= wi && wi < len(s.Xs) && result == s.Xs[wi] && fsum(s.Weights, wi) <= q * fsum(s.Weights, len(s.Xs)) && q * fsum(s.Weights, len(s.Xs)) < fsum(s.Weights, wi+1)
+//@   check @ret4 [r8-lo]  sortedF(s.Xs) && len(s.Xs) == old(len(s.Xs)) && result0 == r8(s.Xs, q)
+//@   check @ret5 [r8-hi]  sortedF(s.Xs) && len(s.Xs) == old(len(s.Xs)) && result0 == r8(s.Xs, q)
+//@   check @ret6 [r8-mid] sortedF(s.Xs) && len(s.Xs) == old(len(s.Xs)) && result0 == r8(s.Xs, q)
+//@   check @ret7 [weighted] sortedF(s.Xs) && result0 == s.Xs[i] && fsum(s.Weights, i) <= q * fsum(s.Weights, len(s.Weights)) && q * fsum(s.Weights, len(s.Weights)) < fsum(s.Weights, i+1)
+//@   loop 1 (i) invariant target == fsum(s.Weights, len(s.Weights)) * q - fsum(s.Weights, i) && target >= 0
+//@   assigns nothing
+
+//@ func Sample.IQR
+//@   model real
+//@   requires wfSample(s) && (!isnil(s.Weights) ==> nonneg(s.Weights))
+//@   ensures [r8-sorted] len(s.Xs) > 0 && s.Sorted && isnil(s.Weights) ==> result == r8(s.Xs, 0.75) - r8(s.Xs, 0.25)
 //@   assigns nothing
